@@ -130,9 +130,38 @@ def job_factory(res):
     okp = [p for p in paths if p.kind == 'done']
     res.obs.append(Ob('makePSFromHDF5: a phase space delivered by the reader is returned as it is (no message, not replaced)', 'holds' if okp and all(not any('basic_ostream' in dm.get(e[0], '') for e in p.events if isinstance(e[0], str)) for p in okp) else 'violated', key='factory-pass'))
 
+def job_loader_args(res):
+    """main gives a start-file loader the same axis limits, axis scales and beam parameters it gives the constructor of a generated start distribution: the loaded grid lives on the same
+    coordinates as the one the rest of main (maps, fields, output units) is set up for.  Operands of the real call instructions in main's IR, compared as values (same SSA value, or loads of the same slot)."""
+    from mainsetup import call_sites
+    bld = mainloop.main_build(); mod = load_module(bld, ['main']); f = mod.funcs['main']; res.funcs['main'] = fn_lines(mod, 'main'); res.paths += 1
+    defs = {}
+    for b in f.order:
+        for ins in f.blocks[b]:
+            if ins.get('dst'): defs[ins['dst']] = ins
+    def canon(v):
+        if isinstance(v, tuple) and v[0] == 'local' and v[1] in defs:
+            d = defs[v[1]]
+            if d['op'] == 'load': return ('load', canon(d['ptr']))
+            if d['op'] in ('fpext', 'fptrunc', 'bitcast'): return (d['op'], canon(d['a']))
+        return v
+    ctor = [c for c in call_sites(mod, f, 'vfps::PhaseSpace::PhaseSpace(float, float, double, float, float, double')]
+    if len(ctor) != 1: raise Unsupported('expected one construction of a generated start distribution in main, found %d' % len(ctor))
+    ca = [canon(a) for t, a in ctor[0][2]['args']]      # this, qmin, qmax, qscale, pmin, pmax, pscale, oclh, Qb, Ib, filling, zoom, data
+    want = {'qmin': ca[1], 'qmax': ca[2], 'pmin': ca[4], 'pmax': ca[5], 'beam charge': ca[8], 'beam current': ca[9], 'position scale (bunch length)': ca[3], 'energy scale (energy spread in eV)': ca[6]}
+    for nm in ('makePSFromHDF5', 'makePSFromTXT'):
+        ls = call_sites(mod, f, 'vfps::' + nm)
+        if not ls: continue
+        for b, k, ins in ls:
+            a = [canon(x) for t, x in ins['args']]      # sret, fname, step/size, qmin, qmax, pmin, pmax, oclh, Qb, Ib, xscale, yscale
+            got = {'qmin': a[3], 'qmax': a[4], 'pmin': a[5], 'pmax': a[6], 'beam charge': a[8], 'beam current': a[9], 'position scale (bunch length)': a[10], 'energy scale (energy spread in eV)': a[11]}
+            bad = [k_ for k_ in want if want[k_] != got[k_]]
+            res.obs.append(Ob('main calls %s with the axis limits, axis scales, charge and current of the generated start distribution (same values as the PhaseSpace construction)' % nm, 'holds' if not bad else 'violated', key='loader-args',
+                              detail='' if not bad else 'differs in: %s' % ', '.join('%s (%s vs %s)' % (k_, got[k_], want[k_]) for k_ in bad), cex=None if not bad else {'replay': 'structural', 'differs': bad}))
+
 def main(tier):
     chk = Check('C11', tier, '4/C11 (9.9)')
-    jobs = [(job_reader, (3,)), (job_reader, (4,)), (job_factory, ()), (preloop.job_preloop, ('C11',)), (preloop.job_rw_sets, ())]
+    jobs = [(job_reader, (3,)), (job_reader, (4,)), (job_factory, ()), (preloop.job_preloop, ('C11',)), (preloop.job_rw_sets, ()), (job_loader_args, ())]
     chk.bounds = {'reader': 'dataset rank 3 and 4, every record count < 2^62, grid width and bunch count < 2^31, every requested record number in [-records, records)', 'set-up': 'all paths (w.r.t. the renormalisation setting and null tests of phase-space pointers) from the loader call to the first loop test; other decisions one way, both preferences',
                   'claimed part of the statement': 'first sentence first half (loads exactly the stored values) and the refusal sentence; that T2 further periods agree within rounding is NOT decided (needs two program runs): it is argued from this start-state obligation plus the step being a function of the grid (C12), see DESIGN 9.9'}
     chk.assumptions = ['libhdf5 is a correct store: a hyperslab of extents (1,[b,]n,n) read into a memory space of the same extents fills the row-major grid [x][y] in order - the same layout HDF5File::append(PhaseSpace) writes (C10 recorder obligations)',
